@@ -117,6 +117,9 @@ int main(int argc, char** argv) {
       else if (!strcmp(how, "stack"))  { o = (T == Half) ? sH : (T == Float) ? sF : (T == String) ? sS : (T == Tuple) ? sT : sI; if (T != Int && T != Float && T != String && T != Tuple && T != Half) wantT = Int; wantcls = "stack"; }
       else if (!strcmp(how, "copy"))   { var src = (T == String) ? sS : (T == Float) ? sF : sI; o = copy(src); wantT = type_of(src); reg = 1; }
       else if (!strcmp(how, "static")) { o = T; wantT = Type; wantcls = "static"; }
+      else if (!strcmp(how, "staticobj")) {          /* a String OBJECT in static storage (header says so) around writable static characters */
+        static char sobj[sizeof(struct Header) + sizeof(struct String)]; static char schars[16];
+        strcpy(schars, "abc"); o = header_init(sobj, String, AllocStatic); ((struct String*)o)->val = schars; wantT = String; wantcls = "static"; }
       else if (!strcmp(how, "aelem"))  { keep1 = new(Array, ET, MK(ET), MK(ET), MK(ET)); o = get(keep1, $I(1)); wantT = ET; wantcls = "data"; }
       /* an Array of Ints that is ASSIGNED from a source it can only iterate (a Filter over an Array of the element type: no len, no
          get): its slots are laid out for the new element type afterwards */
@@ -194,6 +197,7 @@ int main(int argc, char** argv) {
       else if (!strcmp(op, "resize"))      HC_TRY(resize(o, (tt == Tuple && len(o) > 0) ? len(o) - 1 : 1));      /* a Tuple only shrinks, and strictly */
       else if (!strcmp(op, "assign"))      HC_TRY(assign(o, tt == String ? (var)$S("xy") : tt == Tuple ? (var)tuple($I(4)) : (var)$I(1)));
       else if (!strcmp(op, "assignin"))    HC_TRY(assign(o, tt == String ? (var)$S(c_str(o) + (c_str(o)[0] ? 1 : 0)) : (var)$I(1)));      /* the source lies inside the target's own characters */
+      else if (!strcmp(op, "concatself"))  HC_TRY(concat(o, o));                       /* the object itself as the argument */
       else if (!strcmp(op, "concat"))      HC_TRY(concat(o, tt == String ? (var)$S("zz") : (var)tuple($I(4))));
       else if (!strcmp(op, "append"))      HC_TRY(append(o, $S("q")));
       else if (!strcmp(op, "printto"))     HC_TRY(print_to(o, 0, "%s-%i", $S("zz"), $I(7)));
